@@ -183,6 +183,17 @@ class NF:
             n += 1
         return s
 
+    def _with_siblings(self, a: Any, sib: dict) -> Any:
+        ar = self._res(a) if isinstance(a, dict) else a
+        if not isinstance(ar, dict) or any(k in ar for k in ("anyOf", "oneOf", "allOf", "enum", "const")):
+            return a
+        ts = [t for t in types_of(ar) if t != "null"]
+        if len(ts) != 1:
+            return a
+        keys = {"integer": BOUND_KEYS, "number": BOUND_KEYS, "string": STR_KEYS, "array": ARR_KEYS}.get(ts[0], ())
+        add = {k: v for k, v in sib.items() if k in keys and k not in ar}
+        return {**ar, **add} if add else a
+
     def nf(self, s: Any, depth: int = 0) -> dict:
         if s is True or s is None:
             return {"k": "any"}
@@ -206,6 +217,13 @@ class NF:
         if alts:
             null = False
             out = []
+            # validation keywords written NEXT TO the combination hold for the value whichever member admits it:
+            # {"anyOf": [A, B], kw} ≡ {"anyOf": [A ∧ kw, B ∧ kw]}, and a keyword says nothing about a member of another
+            # type (maxLength about an integer). Each member gets the sibling keywords of its own type that it does not
+            # state itself — independently of its position in the list.
+            sib = {k: s[k] for k in (*BOUND_KEYS, *STR_KEYS, *ARR_KEYS) if s.get(k) is not None}
+            if sib:
+                alts = [self._with_siblings(a, sib) for a in alts]
             for a in alts:
                 ar = self._res(a)
                 if ar.get("type") == "null":
